@@ -251,6 +251,20 @@ def other_inputs(rng, tier):
         add("clut:" + p.stem, "clut", p.read_bytes())
     for p in sorted((T / "vwsc").glob("*/*.VWSC")):
         add("vwsc:" + p.stem, "vwsc", p.read_bytes())
+    # synthetic scores: frames whose deltas touch different parts of the channel buffer (a buffer that survives a call
+    # would show through), both channel-record sizes
+    import struct
+    def score(frames, frame_size, channels=8):
+        body = b""
+        for deltas in frames:
+            rec = b"".join(struct.pack(">hh", len(d), off) + d for off, d in deltas)
+            body += struct.pack(">h", len(rec) + 2) + rec
+        return struct.pack(">iiihhhh", 20 + len(body), 0x14, len(frames), 0, frame_size, channels, 0) + body
+    for fs in (20, 24):
+        add("vwsc:syn-full-%d" % fs, "vwsc", score([[(0, bytes(range(1, 41)))], [(40, bytes(range(41, 81)))]], fs), cuts=False)
+        add("vwsc:syn-part-%d" % fs, "vwsc", score([[(44, b"\x09\x09\x07\x01")], []], fs), cuts=False)
+        add("vwsc:syn-part2-%d" % fs, "vwsc", score([[(2, b"\x05")], [(3, b"\x06")]], fs), cuts=False)
+        add("vwsc:syn-bad-%d" % fs, "vwsc", score([[(0, bytes(range(1, 41)))], [(500, b"\x01")]], fs), cuts=False)
     # CASt chunks out of the cast fixtures' movies
     try:
         from drxtract.riff.riff import parse_riff
@@ -297,11 +311,11 @@ def extra_stage(ctx, driver, stats):
     """mixed sequences over all decoder kinds in this process vs fresh-interpreter results"""
     rng = ctx.rng
     inputs = other_inputs(rng, ctx.tier)
-    if ctx.tier == "quick" and len(inputs) > 48:
+    if ctx.tier == "quick" and len(inputs) > 56:
         keep = [i for i in inputs if "[" not in i[0] and "^" not in i[0]]
         rest = [i for i in inputs if i not in keep]
         rng.shuffle(rest)
-        inputs = keep[:24] + rest[:48 - min(24, len(keep))]
+        inputs = keep[:32] + rest[:56 - min(32, len(keep))]
     base = _fresh_process_results(inputs)
     ns = {}
     exec(KIND_SRC, ns)
